@@ -123,10 +123,35 @@ class Patched(object):
                 os.environ[k] = v
 
     def set_avail(self, pattern):
+        self._finder_off()
         for m, a in zip(MODS, pattern):
             sys.modules[m] = self.fakes[m] if a else None
 
+    def set_avail_kinds(self, pattern, kinds):
+        """like set_avail, but an unavailable module fails to import in the given way (IMPORT_KINDS)"""
+        self._finder_off()
+        fail = {}
+        for m, a, k in zip(MODS, pattern, kinds):
+            if a:
+                sys.modules[m] = self.fakes[m]
+            elif k == "none":
+                sys.modules[m] = None                  # ModuleNotFoundError("import of m halted; None in sys.modules")
+            else:
+                sys.modules.pop(m, None)
+                fail[m] = k
+        if fail:
+            self.finder = _FailingFinder(fail)
+            sys.meta_path.insert(0, self.finder)
+
+    def _finder_off(self):
+        f = getattr(self, "finder", None)
+        if f is not None:
+            while f in sys.meta_path:
+                sys.meta_path.remove(f)
+            self.finder = None
+
     def restore(self):
+        self._finder_off()
         for k, v in self.saved_env.items():
             if v is None:
                 os.environ.pop(k, None)
@@ -143,6 +168,37 @@ class Patched(object):
 
     def __exit__(self, *a):
         self.restore()
+
+
+class BrokenExtension(ImportError):
+    """what a loader may raise for a shared object built for another interpreter"""
+
+
+IMPORT_KINDS = ("none", "import-error", "subclass", "dep-missing", "not-found-named")
+
+
+def import_failure(mod, kind):
+    if kind == "import-error":
+        return ImportError("lib%s.so: cannot open shared object file: No such file or directory" % mod)
+    if kind == "subclass":
+        return BrokenExtension("DLL load failed while importing %s" % mod, name=mod, path="/site-packages/%s.so" % mod)
+    if kind == "dep-missing":
+        return ModuleNotFoundError("No module named 'numpy'", name="numpy")      # the backend is there, a dependency is not
+    if kind == "not-found-named":
+        return ModuleNotFoundError("No module named %r" % mod, name=mod)
+    raise AssertionError(kind)
+
+
+class _FailingFinder(object):
+    """first entry of sys.meta_path: importing one of the named modules fails in the requested way"""
+
+    def __init__(self, fail):
+        self.fail = dict(fail)
+
+    def find_spec(self, name, path=None, target=None):
+        if name in self.fail:
+            raise import_failure(name, self.fail[name])
+        return None
 
 
 def avail_tok(pattern):
@@ -233,11 +289,16 @@ def rand_spelling(rng):
     return s
 
 
-def impl_config(infer):
+def impl_config(infer, form=0):
     from cspuz.configuration import Config
 
     def f():
-        c = Config(infer_from_env=infer)
+        if form == 1:
+            c = Config(infer)
+        elif form == 2 and infer:
+            c = Config()
+        else:
+            c = Config(infer_from_env=infer)
         assert type(c.use_graph_primitive) is bool and type(c.use_graph_division_primitive) is bool
         assert isinstance(c.default_backend, str) and c.solver_timeout is None
         return (hx(c.default_backend), hx(c.backend_path), c.use_graph_primitive, c.use_graph_division_primitive)
@@ -251,6 +312,33 @@ def observe_config(ctx):
             P.set_env(env)
             P.set_avail(avail)
             out.append(((infer, env, avail), norm_err(impl_config(infer))))
+    return out
+
+
+def config_kind_cases(ctx):
+    """(infer, env, avail, kinds): every availability pattern x every way an unavailable module can fail to import"""
+    pats = list(itertools.product((False, True), repeat=4))
+    rng = ctx.rng
+    for a in pats:
+        slots = [IMPORT_KINDS if not x else ("-",) for x in a]
+        for kinds in itertools.product(*slots):
+            for (infer, b) in ((True, None), (True, "auto"), (False, "junk")):
+                yield (infer, (b, None, None, None), a, kinds)
+            # flags / named backends: the detection must not even be consulted for a named backend
+            yield (True, (rng.choice(B_VALUES), rng.choice(P_VALUES), rng.choice(F_CORE), rng.choice(F_CORE)), a, kinds)
+
+
+def observe_config_kinds(ctx):
+    out = []
+    with Patched() as P:
+        for (infer, env, avail, kinds) in config_kind_cases(ctx):
+            P.set_env(env)
+            P.set_avail_kinds(avail, kinds)
+            form = len(out) % 3          # class 6: Config(infer) / Config(infer_from_env=infer) / Config() when infer is the default
+            out.append(((infer, env, avail, kinds), norm_err(impl_config(infer, form))))
+            for m in MODS:               # a failed import must not leave anything behind that changes the next case
+                if sys.modules.get(m, P) is not P and sys.modules.get(m) is not None and sys.modules[m] is not P.fakes[m]:
+                    sys.modules.pop(m, None)
     return out
 
 
@@ -284,17 +372,38 @@ def subprocess_cases(ctx):
     return cases
 
 
+SUB_BODIES = {
+    "import-error": "raise ImportError('hidden by the C20 harness')\n",
+    "subclass": "class BrokenExtension(ImportError):\n    pass\nraise BrokenExtension('DLL load failed', name=__name__, path=__file__)\n",
+    "dep-missing": "import c20_no_such_dependency_module\n",
+    "not-found-named": "raise ModuleNotFoundError('No module named %r' % __name__, name=__name__)\n",
+}
+
+
+def subprocess_kind_cases(ctx):
+    """(env, avail, kind): the unavailable modules are present on the path but fail to import in the given way"""
+    out = []
+    for kind in ("subclass", "dep-missing", "not-found-named"):
+        out.append(((None, None, None, None), (0, 0, 0, 1), kind))
+        out.append((("auto", None, None, None), (0, 1, 0, 0), kind))
+        if ctx.thorough:
+            out.append(((None, None, None, None), (0, 0, 0, 0), kind))
+            out.append(((None, None, "false", None), (0, 0, 1, 1), kind))
+    return out
+
+
 def observe_subprocess(ctx):
     out = []
     base = tempfile.mkdtemp(prefix="c20_mods_")
     try:
-        for (env, avail) in subprocess_cases(ctx):
-            d = os.path.join(base, "".join(str(int(a)) for a in avail))
+        allcases = [(env, avail, "import-error") for (env, avail) in subprocess_cases(ctx)] + subprocess_kind_cases(ctx)
+        for (env, avail, kind) in allcases:
+            d = os.path.join(base, "".join(str(int(a)) for a in avail) + "-" + kind)
             if not os.path.isdir(d):
                 os.makedirs(d)
                 for m, a in zip(MODS, avail):
                     with open(os.path.join(d, m + ".py"), "w") as f:
-                        f.write("def solver(x):\n    return ''\n" if a else "raise ImportError('hidden by the C20 harness')\n")
+                        f.write("def solver(x):\n    return ''\n" if a else SUB_BODIES[kind])
             e = {k: v for k, v in os.environ.items() if not k.startswith("CSPUZ_")}
             e["PYTHONPATH"] = d + os.pathsep + vlib.REPO
             e["PYTHONDONTWRITEBYTECODE"] = "1"
@@ -312,7 +421,8 @@ def observe_subprocess(ctx):
                 io = ("ok", (hx(r[1]), hx(r[2]), r[3], r[4]))
             else:
                 io = norm_err(("err", r[1] if r[1] in ERR.values() else "Other"))
-            out.append(((True, env, tuple(bool(a) for a in avail)), io))
+            key = (True, env, tuple(bool(a) for a in avail))
+            out.append((key if kind == "import-error" else key + (kind,), io))
     finally:
         shutil.rmtree(base, ignore_errors=True)
     return out
@@ -464,6 +574,7 @@ def observe_receivers(ctx):
             return True
 
     out = []
+    out_hist = []
     try:
         SL.run_subprocess = fake_run
         SL.SugarLikeBackend.__init__ = sl_init
@@ -471,27 +582,54 @@ def observe_receivers(ctx):
         ZB.importlib = _ImportlibProxy(log)
         for m in ("pycsugar", "enigma_csp", "cspuz_core"):
             sys.modules[m] = mk_fake(m)
-        for (k, v, db, bp, method) in receiver_cases(ctx):
+        def new_solver():
+            s = cspuz.Solver()
+            x = s.bool_var()
+            s.ensure(x)
+            s.add_answer_key(x)
+            return s
+
+        def run_call(s, k, v, db, bp, method, form="kw"):
             del log[:]
             state["calls"] = 0
             ZB.z3 = None
             cfg.default_backend = db
             cfg.backend_path = bp
-            s = cspuz.Solver()
-            x = s.bool_var()
-            s.ensure(x)
-            s.add_answer_key(x)
-            arg = None if k == "N" else (v if k == "S" else Mine)
+            if k == "N":
+                arg = None
+            elif k == "S":
+                arg = v
+            elif k == "T":
+                arg = TYPE_OF[v]()
+            else:
+                arg = Mine
 
             def f():
-                r = getattr(s, method)(backend=arg)
+                if form == "pos":
+                    r = getattr(s, method)(arg)
+                elif form == "omit":
+                    assert arg is None
+                    r = getattr(s, method)()
+                else:
+                    r = getattr(s, method)(backend=arg)
                 assert r is True
                 classes = sorted(set(e for e in log if e.startswith("class:")))
                 entries = sorted(set(e for e in log if not e.startswith("class:")))
                 assert len(classes) == 1 and len(entries) == 1, "solve reached %r" % (log,)
                 c = classes[0][len("class:"):]
                 return (("named:" + c) if not c.startswith("user:") else c, entries[0])
-            out.append(((k, v, db, bp, method), norm_err(vlib.guarded(f))))
+            return norm_err(vlib.guarded(f))
+
+        TYPE_OF = {"sugar": lambda: SL.SugarBackend, "sugar_extended": lambda: SL.SugarExtendedBackend, "z3": lambda: ZB.Z3Backend,
+                   "csugar": lambda: SL.CSugarBackend, "enigma_csp": lambda: SL.EnigmaCSPBackend,
+                   "cspuz_core": lambda: SL.CspuzCoreBackend}
+
+        for (k, v, db, bp, method) in receiver_cases(ctx):
+            out.append(((k, v, db, bp, method), run_call(new_solver(), k, v, db, bp, method)))
+        # class 3 / 6: several solves on the SAME Solver, the configuration (and the argument, and the call form) changing in between
+        for seq in receiver_history_cases(ctx):
+            s = new_solver()
+            out_hist.append((seq, tuple(run_call(s, *c) for c in seq)))
     finally:
         SL.run_subprocess = saved["run"]
         SL.SugarLikeBackend.__init__ = saved["sl_init"]
@@ -505,7 +643,38 @@ def observe_receivers(ctx):
                 sys.modules[m] = v
         cfg.__dict__.clear()
         cfg.__dict__.update(saved_cfg)
+    ctx._c20_receiver_history = out_hist
     return out
+
+
+def receiver_history_cases(ctx):
+    """sequences of (k, v, db, bp, method, form) run on one Solver"""
+    rng = ctx.rng
+    singles = []
+    for (k, v) in [("N", None), ("S", "sugar"), ("S", "z3"), ("S", "csugar"), ("S", "cspuz_core"), ("S", "junk"), ("C", "Mine"),
+                   ("T", "sugar_extended"), ("T", "enigma_csp"), ("T", "z3")]:
+        for db in ("sugar", "sugar_extended", "z3", "csugar", "enigma_csp", "cspuz_core", "junk"):
+            if k != "N" and db not in ("sugar", "cspuz_core", "junk"):
+                continue
+            for bp in (None, "/opt/x/sugar"):
+                singles.append((k, v, db, bp))
+    seqs = []
+    # every ordered pair of default-backend settings with no argument: the second solve must follow the second setting
+    dflt = [c for c in singles if c[0] == "N"]
+    for a in dflt:
+        for b in dflt:
+            if a != b:
+                seqs.append((a + ("find_answer" if len(seqs) % 2 else "solve", "omit" if len(seqs) % 3 == 0 else "kw"),
+                             b + ("solve" if len(seqs) % 4 < 2 else "find_answer", rng.choice(["kw", "pos", "omit"]))))
+    for _ in range(1500 if ctx.thorough else 350):
+        n = rng.choice([2, 2, 3])
+        seq = []
+        for _ in range(n):
+            c = rng.choice(singles)
+            form = rng.choice(["kw", "pos"] + (["omit"] if c[0] == "N" else []))
+            seq.append(c + (rng.choice(["find_answer", "solve"]), form))
+        seqs.append(tuple(seq))
+    return seqs
 
 
 # ------------------------------------------------------------------ graph helpers: is the native operator posted?
@@ -666,6 +835,61 @@ def observe_prims(ctx):
     return out
 
 
+def prim_history_cases(ctx):
+    """two (thorough: up to three) helper calls on ONE Solver: (name, p, d, arg, ac, explicit, dd) each"""
+    rng = ctx.rng
+    H = helper_table()
+    singles = [c for c in prim_cases(ctx)]
+    with_arg = [c for c in singles if H[c[0]][0]]
+    seqs = []
+    # the same helper twice, the deciding configuration flag flipped in between, argument omitted / None
+    for name in H:
+        has_arg, has_acy, builders = H[name]
+        for (explicit, dd) in sorted(builders):
+            for (p1, d1) in itertools.product((False, True), repeat=2):
+                for arg in (("omit", None) if has_arg else ("omit",)):
+                    for ac in ((False, True) if has_acy else (False,)):
+                        seqs.append(((name, p1, d1, arg, ac, explicit, dd), (name, not p1, not d1, arg, ac, explicit, dd)))
+    for _ in range(4000 if ctx.thorough else 900):
+        n = 3 if ctx.thorough and rng.random() < 0.3 else 2
+        seqs.append(tuple(rng.choice(with_arg if rng.random() < 0.8 else singles) for _ in range(n)))
+    return seqs
+
+
+def observe_prim_history(ctx):
+    import cspuz
+    H = helper_table()
+    cfg = cspuz.config
+    saved_cfg = dict(cfg.__dict__)
+    out = []
+    try:
+        for seq in prim_history_cases(ctx):
+            cfg.use_graph_primitive = not seq[0][1]
+            cfg.use_graph_division_primitive = not seq[0][2]
+            s = cspuz.Solver()
+            res = []
+            for (name, p, d, arg, ac, explicit, dd) in seq:
+                build = H[name][2][(explicit, dd)]
+                before = len(s.constraints)
+
+                def f():
+                    cfg.use_graph_primitive = p
+                    cfg.use_graph_division_primitive = d
+                    try:
+                        build(s, arg, ac)
+                    finally:
+                        cfg.use_graph_primitive = not p
+                        cfg.use_graph_division_primitive = not d
+                    ops = native_ops_in(s.constraints[before:])
+                    return ("avc=%d" % ("avc" in ops), "div=%d" % ("div" in ops))
+                res.append(norm_err(vlib.guarded(f)))
+            out.append((seq, tuple(res)))
+    finally:
+        cfg.__dict__.clear()
+        cfg.__dict__.update(saved_cfg)
+    return out
+
+
 # ------------------------------------------------------------------ observations (shared by correspond and search)
 
 def lower_fact_counterexamples():
@@ -685,10 +909,13 @@ def observe(ctx):
         obs = {}
         obs["config"] = observe_config(ctx)
         obs["import"] = observe_subprocess(ctx)
+        obs["config-kinds"] = observe_config_kinds(ctx)
         obs["strtobool"] = observe_spellings(ctx)
         obs["name"] = observe_names(ctx)
         obs["receiver"] = observe_receivers(ctx)
+        obs["receiver-history"] = ctx._c20_receiver_history
         obs["prim"] = observe_prims(ctx)
+        obs["prim-history"] = observe_prim_history(ctx)
         ctx._c20 = obs
     return ctx._c20
 
@@ -704,11 +931,14 @@ def correspond(ctx):
     if bad:
         ctx.mismatches.append({"kind": "lower-fact", "input": bad[:10], "model": "no such code point", "impl": "exists"})
 
-    for kind in ("config", "import"):
-        reqs = ["CFG %d %s %s %s %s %s" % (int(infer), hx(env[0]), hx(env[1]), hx(env[2]), hx(env[3]), avail_tok(av))
-                for ((infer, env, av), _) in obs[kind]]
-        for ((infer, env, av), io), r in zip(obs[kind], m.batch(reqs)):
-            ctx.corr(kind, (infer, env, avail_tok(av)), parse_cfg(r), io)
+    for kind in ("config", "import", "config-kinds"):
+        reqs = ["CFG %d %s %s %s %s %s" % (int(key[0]), hx(key[1][0]), hx(key[1][1]), hx(key[1][2]), hx(key[1][3]), avail_tok(key[2]))
+                for (key, _) in obs[kind]]
+        for (key, io), r in zip(obs[kind], m.batch(reqs)):
+            (infer, env, av), extra = key[:3], key[3:]
+            ctx.corr(kind, (infer, env, avail_tok(av)) + extra, parse_cfg(r), io)
+            for fk in ([extra[0]] if extra and isinstance(extra[0], str) else sorted(set(extra[0]) - {"-"}) if extra else []):
+                ctx.count("import-failure-kind:" + fk)
             ctx.count("backend-var:" + ("unset" if env[0] is None else "auto" if env[0] == "auto" else "name" if env[0] in NAMES else "junk"))
 
     reqs = ["STB " + hx(s) for (s, _) in obs["strtobool"]]
@@ -728,6 +958,22 @@ def correspond(ctx):
     for (inp, io), r in zip(obs["prim"], m.batch(reqs)):
         ctx.corr("prim", inp, parse_simple(r), io)
         ctx.count("prim-arg:" + str(inp[3]))
+
+    # histories: the model has no state, so call number i on a reused Solver must equal the model on call i's own inputs
+    flat = [(seq, i) for (seq, _) in obs["receiver-history"] for i in range(len(seq))]
+    reqs = ["RCV %s %s %s %s" % ("S" if seq[i][0] == "T" else seq[i][0], hx(seq[i][1]), hx(seq[i][2]), hx(seq[i][3])) for (seq, i) in flat]
+    rep = iter(m.batch(reqs))
+    for (seq, ios) in obs["receiver-history"]:
+        mo = tuple(parse_simple(next(rep)) for _ in seq)
+        ctx.corr("receiver-history", seq, mo, ios)
+        ctx.count("receiver-history:len=%d" % len(seq))
+    flat = [(seq, i) for (seq, _) in obs["prim-history"] for i in range(len(seq))]
+    reqs = ["PRIM %s %d %d %s %d %d %d" % (seq[i][0].split("/")[0], seq[i][1], seq[i][2], arg_tok(seq[i][3]), seq[i][4], seq[i][5], seq[i][6])
+            for (seq, i) in flat]
+    rep = iter(m.batch(reqs))
+    for (seq, ios) in obs["prim-history"]:
+        mo = tuple(parse_simple(next(rep)) for _ in seq)
+        ctx.corr("prim-history", tuple((c[0], c[1], c[2], str(c[3]), c[4], c[5], c[6]) for c in seq), mo, ios)
 
 
 # ------------------------------------------------------------------ the property itself, restated independently
@@ -822,15 +1068,19 @@ def search(ctx):
     except Exception:
         ctx._c20 = None
         raise
-    for kind in ("config", "import"):
-        for ((infer, env, av), io) in obs[kind]:
-            ctx.prop_case(kind + "-vs-spec", (infer, env, avail_tok(av)))
+    for kind in ("config", "import", "config-kinds"):
+        for (key, io) in obs[kind]:
+            (infer, env, av), extra = key[:3], key[3:]
+            ctx.prop_case(kind + "-vs-spec", (infer, env, avail_tok(av)) + extra)
             so = spec_config(infer, env, av)
             if so != io:
-                ctx.violation("%s:infer=%d:env=%r:avail=%s" % (kind, infer, env, avail_tok(av)),
-                              "Config built from this environment / module availability is not the configured one",
-                              {"kind": kind, "infer": infer, "env": dict(zip(ENVS, env)), "importable": dict(zip(MODS, av)),
-                               "expected": so, "observed": io})
+                detail = {"kind": kind, "infer": infer, "env": dict(zip(ENVS, env)), "importable": dict(zip(MODS, av)),
+                          "expected": so, "observed": io}
+                k = "%s:infer=%d:env=%r:avail=%s" % (kind, infer, env, avail_tok(av))
+                if extra:
+                    detail["import_failure_of_unavailable_modules"] = extra[0] if isinstance(extra[0], str) else dict(zip(MODS, extra[0]))
+                    k += ":fail=%s" % (extra[0] if isinstance(extra[0], str) else ",".join(extra[0]))
+                ctx.violation(k, "Config built from this environment / module availability is not the configured one", detail)
     for (s, io) in obs["strtobool"]:
         ctx.prop_case("strtobool-vs-spec", s)
         so = norm_err(vlib.guarded(lambda: ("1" if spec_bool(s) else "0",)))
@@ -859,6 +1109,29 @@ def search(ctx):
                           "native graph operator used / not used against the explicit argument or configuration",
                           {"kind": "prim", "helper": name, "config.use_graph_primitive": p, "config.use_graph_division_primitive": d,
                            "use_graph_primitive": str(arg), "acyclic": ac, "graph_given": explicit, "expected": so, "observed": io})
+    for (seq, ios) in obs["receiver-history"]:
+        ctx.prop_case("receiver-history-vs-spec", seq)
+        for i, ((k, v, db, bp, method, form), io) in enumerate(zip(seq, ios)):
+            so = spec_receiver("S" if k == "T" else k, v, db, bp)
+            if so != io:
+                ctx.violation("receiver-history:call=%d:%s:arg=%s:%r:default=%r:path=%r:form=%s" % (i + 1, method, k, v, db, bp, form),
+                              "solve number %d on the same Solver was not received by the backend / entry point configured at that call" % (i + 1),
+                              {"kind": "receiver-history", "calls_on_one_solver": [
+                                  {"method": c[4], "backend_argument": {"N": None, "S": c[1], "C": "<class Mine>", "T": "<class of %s>" % c[1]}[c[0]],
+                                   "call_form": c[5], "config.default_backend": c[2], "config.backend_path": c[3]} for c in seq[:i + 1]],
+                               "failing_call": i + 1, "expected": so, "observed": io})
+    for (seq, ios) in obs["prim-history"]:
+        ctx.prop_case("prim-history-vs-spec", tuple((c[0], c[1], c[2], str(c[3]), c[4], c[5], c[6]) for c in seq))
+        for i, ((name, p, d, arg, ac, explicit, dd), io) in enumerate(zip(seq, ios)):
+            so = spec_prim(name, p, d, arg, ac, explicit, dd)
+            if so != io:
+                ctx.violation("prim-history:call=%d:%s:p=%d:d=%d:arg=%s:acyclic=%d:graph=%d:dd=%d" % (i + 1, name, p, d, arg, ac, explicit, dd),
+                              "graph helper call number %d on the same Solver used / did not use the native operator against the explicit argument or the "
+                              "configuration in force at that call" % (i + 1),
+                              {"kind": "prim-history", "calls_on_one_solver": [
+                                  {"helper": c[0], "config.use_graph_primitive": c[1], "config.use_graph_division_primitive": c[2],
+                                   "use_graph_primitive": str(c[3]), "acyclic": c[4], "graph_given": c[5]} for c in seq[:i + 1]],
+                               "failing_call": i + 1, "expected": so, "observed": io})
     ctx.note("graph-helper and receiver decision tables are enumerated exhaustively over their finite argument domains; "
              "environment strings are a fixed set of %d backend values x %d flag spellings (+ random case/whitespace variants)"
              % (len(B_VALUES), len(F_CORE) + len(F_MORE)))
